@@ -312,6 +312,15 @@ Definition chk_c06 (P : pspec) (sm : sem) (k : N) (has_buf : bool) (len x y w h 
   chk_stray es ++
   flat_map (fun e => match e with EPattern c _ _ _ => [ClOtherPlane c] | _ => [] end) es.
 
+(** ** C11: construction / wake-up send no SPI byte before their hardware reset (busy polls and delays may
+    precede it; a status-command wait is SPI traffic) *)
+Fixpoint chk_reset_first (ic : list icall) : list clause :=
+  match ic with
+  | IReset _ _ :: _ => []
+  | IWait _ :: r | IDelay _ _ :: r => chk_reset_first r
+  | _ => [ClNoReset]
+  end.
+
 (** ** C11: every hardware reset of a call has a non-zero low time and a non-zero preceding high time *)
 Definition chk_resets (ic : list icall) : list clause :=
   flat_map (fun i => match i with IReset a b => if (0 <? a) && (0 <? b) then [] else [ClResetTiming] | _ => [] end) ic.
